@@ -1001,7 +1001,79 @@ def rule_rescoring_data_on_every_backend(ctx) -> None:
                       "every hit is scored recency 0 / importance 0.5, and the result is ordered by cosine alone - not by the documented combined score")
 
 
+def _memo_key_gaps(fnode: ast.AST) -> List[Tuple[ast.AST, str, str]]:
+    """memo fills `self.<table>[K] = V` (or via a local bound to V) in one function whose key is coarser than the value:
+    a parameter the VALUE is computed from occurs in the KEY not at all, or only under a lossy projection (len(p), bool(p),
+    type(p), p[0]).  Returns (store node, parameter, how it occurs in the key)."""
+    params = [a.arg for a in fnode.args.args if a.arg not in ("self", "cls")] if isinstance(fnode, (ast.FunctionDef, ast.AsyncFunctionDef)) else []
+    assigns = {}
+    for x in ast.walk(fnode):
+        if isinstance(x, ast.Assign) and len(x.targets) == 1 and isinstance(x.targets[0], ast.Name):
+            assigns.setdefault(x.targets[0].id, []).append(x.value)
+
+    def expand(e, depth=0):
+        out = [e]
+        if depth < 3:
+            for y in ast.walk(e):
+                if isinstance(y, ast.Name) and y.id in assigns and y.id not in params:
+                    for v in assigns[y.id]:
+                        out += expand(v, depth + 1)
+        return out
+
+    gaps = []
+    for x in ast.walk(fnode):
+        if not (isinstance(x, ast.Assign) and any(isinstance(t, ast.Subscript) and isinstance(t.value, ast.Attribute) and isinstance(t.value.value, ast.Name) and t.value.value.id == "self" for t in x.targets)):
+            continue
+        t = next(t for t in x.targets if isinstance(t, ast.Subscript))
+        vexprs = expand(x.value)
+        kexprs = expand(t.slice)
+        vparams = {y.id for e in vexprs for y in ast.walk(e) if isinstance(y, ast.Name) and y.id in params}
+        for p_ in sorted(vparams):
+            whole, lossy = False, None
+            for e in kexprs:
+                lossy_ids = {id(z) for y in ast.walk(e) if isinstance(y, ast.Call) and isinstance(y.func, ast.Name) and y.func.id in ("len", "bool", "type") for z in ast.walk(y)}
+                lossy_ids |= {id(z) for y in ast.walk(e) if isinstance(y, ast.Subscript) and isinstance(y.value, ast.Name) and y.value.id == p_ for z in ast.walk(y)}
+                for y in ast.walk(e):
+                    if isinstance(y, ast.Name) and y.id == p_:
+                        if id(y) in lossy_ids:
+                            lossy = lossy or "only through a count / type / single element"
+                        else:
+                            whole = True
+            if not whole:
+                gaps.append((x, p_, lossy or "not at all"))
+    return gaps
+
+
+def rule_index_memos_keyed_by_their_inputs(ctx) -> None:
+    """"top clusters for the cluster tier ... (agent scope never yields another owner's memories)": a table an index fills
+    during a search (`self._centroids[key] = mean(vecs)`) is shared by every later search of that index object - other owners,
+    other shard views.  Its key must determine the cached value: a parameter the value is computed from (the owner-filtered
+    member vectors) that reaches the key only as a count makes two owners with equally many members in a cluster share one
+    centroid, and the second one's clusters are ranked with the first one's vectors."""
+    n_fn = 0
+    for mn in (IDX, LANCE):
+        if mn not in ctx.prog.modules:
+            continue
+        for f in ctx.prog.module(mn).funcs.values():
+            if not f.cls or f.name in ("__init__", "add", "clear", "__setstate__", "__getstate__"):
+                continue
+            n_fn += 1
+            for node, p_, how in _memo_key_gaps(f.node):
+                ctx.violation("C11.TIER", ctx.okey(f"{f.qual}/memo-key-determines-the-value:{p_}"), f.loc(node),
+                              f"`{src(node)[:60]}` files a value computed from `{p_}` under a key in which `{p_}` occurs {how}: the table outlives the call, so another owner (or another shard view) "
+                              "with an equal count is served this one's value - its clusters are ranked with foreign vectors, the cluster-tier cut and the final order are wrong")
+    ctx.floor("C11.TIER", "index methods scanned for memo tables", n_fn, 6)
+    # positive control on a synthetic method (the rule's expected count on the clean tree is zero)
+    probe = ast.parse("class _P:\n  def c(self, cid, vecs):\n    key = (cid, len(vecs))\n    v = self._t.get(key)\n    if v is None:\n      v = sum(vecs)\n      self._t[key] = v\n    return v\n"
+                      "  def ok(self, cid, ids, vecs):\n    key = (cid, tuple(ids))\n    self._t[key] = sum(vecs[i] for i in ids)\n    return self._t[key]\n")
+    fns = {x.name: x for x in ast.walk(probe) if isinstance(x, ast.FunctionDef)}
+    if not _memo_key_gaps(fns["c"]) or [g for g in _memo_key_gaps(fns["ok"]) if g[1] == "ids"]:
+        raise AnalysisError("positive control failed: memo-key query")
+    ctx.holds("C11.TIER", f"{IDX}/memo-tables-keyed-by-their-inputs", "clematis/memory/index.py", f"no memo fill with a key coarser than its value in {n_fn} index methods (query verified on a synthetic memo)")
+
+
 def run(ctx) -> None:
+    rule_index_memos_keyed_by_their_inputs(ctx)
     rule_rescoring_data_on_every_backend(ctx)
     rule_zero_caps(ctx)
     rule_cluster_id_identity(ctx)
